@@ -155,6 +155,12 @@ func Assert(c bool, msg string) {
 
 func Reach(tag string) { Trace = append(Trace, "reach: "+tag) }
 
+func ReachIf(cond bool, tag string) {
+	if cond {
+		Reach(tag)
+	}
+}
+
 func Choice(name string, n int) int {
 	v := get(name, 64).Uint64()
 	if random {
